@@ -543,6 +543,25 @@ def corpus():
            "sched": {"type": "scripted", "default": [["S1", [8.0]], ["S2", [16.0]], ["S3", [24.0]]], "script": []}}
     out.append({"sc": sc3, "var": {"stations": [2, 1, 0], "constraints": [], "sessions": [5, 4, 3, 2, 1, 0], "recomputes": [1, 0], "shift": 30},
                 "exact": True, "ties": False})
+    # a site with two feeders under a common limit, every sort order: arrivals, departures and the real-valued
+    # laxities / remaining times are pairwise distinct but close (keys of cars that wait drift past the others less
+    # than one period apart); registered in a non-alphabetical order, stations at different voltages
+    cc = {"t": "finite", "rates": [8, 16, 24, 32]}
+    site = {"stations": [{"id": i, "kind": dict(cc), "V": v, "phase": 0}
+                         for i, v in (("N-03", 208), ("N-01", 208), ("N-04", 240), ("N-02", 208))],
+            "constraints": [{"name": "north", "coeffs": [["N-01", 1], ["N-02", 1]], "limit": 32.0},
+                            {"name": "south", "coeffs": [["N-03", 1], ["N-04", 1]], "limit": 40.0},
+                            {"name": "site", "coeffs": [["N-01", 1], ["N-02", 1], ["N-03", 1], ["N-04", 1]], "limit": 64.0}],
+            "sessions": [{"session": n, "station": s_, "arrival": a_, "departure": d_, "requested": q,
+                          "batt": {"two": False, "cap": 40, "init": 0, "maxp": 6.656}, "est": None}
+                         for n, s_, a_, d_, q in (("a", "N-01", 0, 41, 10.0), ("b", "N-02", 1, 40, 10.31), ("c", "N-03", 2, 37, 7.13),
+                                                  ("d", "N-04", 3, 45, 9.47), ("e", "N-02", 46, 70, 5.21), ("f", "N-01", 47, 66, 4.57))],
+            "recomputes": [], "period": 5, "max_recompute": 1, "noise": [0.0]}
+    for algo, perm in (("llf", [1, 3, 0, 2]), ("lrpt", [3, 2, 1, 0]), ("lcfs", [2, 0, 3, 1]), ("rr:llf", [1, 0, 3, 2])):
+        sc4 = copy.deepcopy(site)
+        sc4["sched"] = {"type": algo}
+        out.append({"sc": sc4, "var": {"stations": perm, "constraints": [2, 0, 1], "sessions": [5, 4, 3, 2, 1, 0], "recomputes": [], "shift": 7},
+                    "exact": False, "ties": False})
     return out
 
 
